@@ -53,6 +53,9 @@ def _handler_accepts(node: ast.If, key: str) -> set:
 def run(rep: core.Report):
     _r18f(rep)
     _r18h(rep)
+    from rules import shared_selfalias
+
+    shared_selfalias.run(rep, "R18i", ["phonopy/cui/create_force_sets.py", "phonopy/cui/phonopy_script.py", "phonopy/cui/load_helper.py", "phonopy/cui/collect_cell_info.py", "phonopy/file_IO.py", "phonopy/interface/vasp.py"])
     _r18g(rep)
     rep.rule("R18a", "table closure: every option dest is forwarded (or handled directly), every forwarded key has a parse_conf handler, every parameter has a set_settings consumer calling an existing setter, every settings.<x> read by the scripts exists", 300)
     rep.rule("R18b", "encoding agreement: what read_options stores for a key (.true./.false. literal, joined list, raw typed value) is what the key's parse_conf handler parses; store_false flags forward the negated literal", 90)
@@ -338,6 +341,10 @@ def selftest():
     V = []
     b = lambda name, file, old, new, rule, expect="", **kw: V.append(dict(name=name, kind="break", file=file, old=old, new=new, rule=rule, expect=expect, **kw))
     n = lambda name, file, old, new, **kw: V.append(dict(name=name, kind="neutral", file=file, old=old, new=new, **kw))
+    CFS = "phonopy/cui/create_force_sets.py"
+    b("residual forces subtracted through a view of the first set", CFS, "    for i in range(1, len(force_sets)):\n        force_sets[i] -= force_sets[0]\n", "    residual_forces = force_sets[0]\n    for forces in force_sets:\n        forces -= residual_forces\n", "R18i", "_subtract_residual_forces")
+    n("residual forces subtracted through a copy of the first set", CFS, "    for i in range(1, len(force_sets)):\n        force_sets[i] -= force_sets[0]\n", "    residual_forces = force_sets[0].copy()\n    for forces in force_sets:\n        forces -= residual_forces\n")
+    n("residual forces subtracted from the tail", CFS, "    for i in range(1, len(force_sets)):\n        force_sets[i] -= force_sets[0]\n", "    residual_forces = force_sets[0]\n    for forces in force_sets[1:]:\n        forces -= residual_forces\n")
     b("handler of fpitch removed", SETT, 'if conf_key == "fpitch":', 'if conf_key == "f_pitch":', "R18a", "fpitch")
     b("dest renamed on the parser side", ARGP, 'dest="is_nomeshsym"', 'dest="is_no_mesh_sym"', "R18a", "is_no_mesh_sym")
     b("consumer renamed", SETT, 'if "dm_decimals" in params:', 'if "dynmat_decimals" in params:', "R18a", "decimals")
